@@ -134,7 +134,7 @@ def ranking(b, head, tail):
 
 
 def run(ctx, chk):
-    fb = ctx.facts('dev')
+    fb = ctx.facts()
     chk.explanation = ('B1: the only loop on the client call paths (in snapshot()) has a ranking variable. B2: no other CFG '
                        'cycle and no call-graph cycle in the closure of ClockBoundClient::now / clockbound_now. B3: every external '
                        'callee of that closure is non-blocking (deny-list of blocking families, libc limited to clock_gettime). '
